@@ -30,7 +30,12 @@ Bases == << I!VBlock("NO", "SPACE") \o I!WBlock("null1") \o I!CBlock(2) \o I!PBl
             I!VBlock("NO", "TAB") \o I!WBlock("null1") \o I!CBlock(2) \o I!XBlock("X1", <<>>) \o I!ABlock(1, 2, I!NoDeco(1), I!Fin),
             \* a text column (spelled as identifiers or as date-like digit-hyphen-digit tokens by the concretiser)
             I!VBlock("NO", "SPACE") \o I!WBlock("null1") \o I!CBlock(3)
-              \o I!ABlock(2, 3, I!NoDeco(2), LAMBDA i, j : IF j = 2 THEN "TEXT" ELSE "FIN") >>
+              \o I!ABlock(2, 3, I!NoDeco(2), LAMBDA i, j : IF j = 2 THEN "TEXT" ELSE "FIN"),
+            \* ... and the same with declared COMMA and TAB delimiters (padding blanks around the text tokens)
+            I!VBlock("NO", "COMMA") \o I!WBlock("null1") \o I!CBlock(3)
+              \o I!ABlock(2, 3, I!NoDeco(2), LAMBDA i, j : IF j = 2 THEN "TEXT" ELSE "FIN"),
+            I!VBlock("NO", "TAB") \o I!WBlock("null1") \o I!CBlock(3)
+              \o I!ABlock(2, 3, I!NoDeco(2), LAMBDA i, j : IF j = 3 THEN "TEXT" ELSE "FIN") >>
 
 SecAt(t, i) == IF i = 0 \/ R!SectionOf(t, i) = 0 THEN "none" ELSE t[R!SectionOf(t, i)].sec
 InsertAfter(t, i, ln) == SubSeq(t, 1, i) \o <<ln>> \o SubSeq(t, i + 1, Len(t))
